@@ -284,7 +284,7 @@ func c03Check(c *Ctx, v interface{}, enc string, tags []string, esc bool) (nontr
 
 func c03Run(c *Ctx) {
 	mustBeDefault(c)
-	c.S.Rule = "cases = (value, encoder, tags, escaping): every JSON-shaped template with <= N nodes over keys {a, b, -x, #text} and leaves {\"s\", \" s \", \"\", 1, true, null} (lists 0-3 incl. nested and mixed, empty containers; attribute entries scalar non-null, text entries scalar incl. null) as multi-key root, single-key root (non-list value) and AnyXml argument (default and explicit tags); encoders Map.Xml, Map.XmlIndent, AnyXml, AnyXmlIndent, j2x.JsonToXml; a second family with strings of XML special characters under XMLEscapeChars(true). Oracle: output well formed with exactly one root, and decoding it gives the Map the reference decode prescribes for the abstract document the encoding rules denote. Ascending and descending map order; returned bytes are retained and re-checked after later calls. non-trivial = in-domain value encoded."
+	c.S.Rule = "cases = (value, encoder, tags, escaping): every JSON-shaped template with <= N nodes over keys {a, b, -x, #text} and leaves {\"s\", \" s \", \"\", 1, true, null} (lists 0-3 incl. nested and mixed, empty containers; attribute entries scalar non-null, text entries scalar incl. null) as multi-key root, single-key root (non-list value) and AnyXml argument (default and explicit tags); encoders Map.Xml, Map.XmlIndent, AnyXml, AnyXmlIndent, j2x.JsonToXml; a second family with strings of XML special characters under XMLEscapeChars(true); an attribute-heavy family (keys {a,-x,-xy,-z,#text}, two to three attributes per element, empty and non-empty values side by side). Oracle: output well formed with exactly one root, and decoding it gives the Map the reference decode prescribes for the abstract document the encoding rules denote. Ascending and descending map order; returned bytes are retained and re-checked after later calls. non-trivial = in-domain value encoded."
 	c.S.Assumptions = []string{"attribute and text entries never stand where an element name is needed (root key, AnyXml single-key list member): outside the property's valid-XML-name premise", "reference: value -> abstract document (harness/c03.go) -> reference decode (harness/ref_xml.go)"}
 	n, n2 := 5, 4
 	if c.Thorough {
@@ -333,6 +333,41 @@ func c03Run(c *Ctx) {
 			}
 			runAll(func() interface{} { return inst(t, nil) }, esc)
 		})
+		// attribute-heavy family: up to three attributes on one element (names that are prefixes of one
+		// another), empty and non-empty values side by side, beside text and child content
+		ga := newGen(GenP{Keys: []string{"a", "-x", "-xy", "-z", "#text"}, MaxList: 2, MaxKeys: 4, EmptyList: false, EmptyMap: true, ListInList: false,
+			Leaves: []interface{}{leaves[0], "", leaves[len(leaves)-1], 2.0}})
+		ga.values(nn, func(t *T) {
+			if t.Kind == 'v' || !c03HasTwoAttrs(t) {
+				return
+			}
+			probe := inst(t, nil)
+			if !c03InDomain(probe, true) {
+				return
+			}
+			runAll(func() interface{} { return inst(t, nil) }, esc)
+		})
 	}
 	resetOptions()
+}
+
+// c03HasTwoAttrs: some map of the template carries at least two attribute entries.
+func c03HasTwoAttrs(t *T) bool {
+	if t.Kind == 'M' {
+		n := 0
+		for _, k := range t.Keys {
+			if strings.HasPrefix(k, "-") {
+				n++
+			}
+		}
+		if n >= 2 {
+			return true
+		}
+	}
+	for _, k := range t.Kids {
+		if c03HasTwoAttrs(k) {
+			return true
+		}
+	}
+	return false
 }
